@@ -68,20 +68,28 @@ func init() {
 		"guardBy":     pGuardBy,
 		"freeze":      pFreeze,
 		"held":        pHeld,
+		"raceBegin":   pRaceBegin,
+		"raceEnd":     pRaceEnd,
 		"concurrently": func(in *Interp, fn *ssa.Function, a []Value) Value {
 			if in.heldAny() {
 				in.pendingConc = append(in.pendingConc, a[0])
 				in.trace = append(in.trace, "concurrent task waits for a lock held by the caller")
 				return nil
 			}
+			prev := in.raceActor
+			in.raceActor = 1
 			in.call(a[0], nil)
+			in.raceActor = prev
 			return nil
 		},
 		"joinConcurrent": func(in *Interp, fn *ssa.Function, a []Value) Value {
 			p := in.pendingConc
 			in.pendingConc = nil
 			for _, f := range p {
+				prev := in.raceActor
+				in.raceActor = 1
 				in.call(f, nil)
+				in.raceActor = prev
 			}
 			return nil
 		},
